@@ -733,7 +733,7 @@ def _glom_match(target, spec, scope):
                 except GlomError as e:
                     last_error = e
             else:  # did not break, something went wrong
-                if target and not spec:
+                if not spec:  # (an item was reached: the target is not empty, whatever its truth value)
                     raise MatchError(
                         "{0!r} does not match empty {1}", target, type(spec).__name__)
                 # NOTE: unless error happens above, break will skip else branch
